@@ -14,6 +14,7 @@ pub fn level(op: &str) -> u8 {
   match op { "&&" | "||" | "⊕" => 1, "==" | "!=" | "<" | "<=" | ">" | ">=" => 2, "+" | "-" => 3, "*" | "/" | "%" | "**" => 4, "^" => 5, _ => 0 }
 }
 pub fn class(op: &str) -> &'static str {
+  if op == "**" { return "matmul"; }
   match level(op) { 1 => "logic", 2 => "cmp", 3 => "add", 4 => "mul", 5 => "pow", _ => "?" }
 }
 
@@ -69,6 +70,13 @@ impl C02 {
     for k in 1..=full_k {
       let n = 15usize.pow(k as u32);
       for i in 0..n { let mut s = vec![]; let mut x = i; for _ in 0..k { s.push(OPS[x % 15]); x /= 15; } v.push(s); }
+    }
+    // chains that contain the matrix-multiply operator (same level as * / %): every sequence of 2..3 operators over
+    // {**, *, /, +, -, ^} with at least one **; operands are 2x2 matrices so that every grouping is well-typed
+    let mops = ["**", "*", "/", "+", "-", "^"];
+    for k in 2..=tier.pick(2usize, 3usize) {
+      let n = mops.len().pow(k as u32);
+      for i in 0..n { let mut s = vec![]; let mut x = i; for _ in 0..k { s.push(mops[x % mops.len()]); x /= mops.len(); } if s.contains(&"**") { v.push(s); } }
     }
     if tier == Tier::Thorough {
       // k = 4 over the 7-operator subset (one operator per level plus -, /)
@@ -141,7 +149,9 @@ impl UnitRunner for C02 {
         for p in 0..=k {
           let name = if bp[p] { format!("p{}", p) } else { format!("n{}", p) };
           let val = if bp[p] { BOOLS[vec_i][p].to_string() } else { NUMS[vec_i][p].to_string() };
+          let has_mm = ops.contains(&"**");
           let def = match deco {
+            _ if has_mm && !bp[p] => { let v: f64 = val.parse().unwrap(); format!("{} := [{} {}; {} {}]", name, v, v + 1.0, v + 3.0, v + 7.0) }
             Some((dp, "'")) if dp == p => { let v: f64 = val.parse().unwrap(); format!("{} := [{} {}; {} {}]", name, v, v + 1.0, v + 2.0, v + 3.0) }
             _ => format!("{} := {}", name, val),
           };
